@@ -27,7 +27,7 @@ def run_entry(e, kind):
             if s.count(old) != 1:
                 return (e, kind, 'SETUP', 'pattern occurs %d times in %s' % (s.count(old), rel))
             open(p, 'w').write(s.replace(old, new))
-        env = dict(os.environ, PYVC_REPO=tmp)
+        env = dict(os.environ, PYVC_REPO=tmp, PYVC_UNDECIDED_EXIT='2')
         t0 = time.time()
         p = subprocess.run([os.path.join(VERIF, 'check'), pid, '--tier', 'quick', '--no-evidence'] + (['--no-bounded'] if e.get('deductive_only', True) else []),
                            stdout=subprocess.PIPE, stderr=subprocess.STDOUT, universal_newlines=True, env=env, cwd=VERIF)
